@@ -125,7 +125,8 @@ impl Trace for ClassAttributes {
 
 #[derive(Debug, Clone, Copy)]
 pub struct TryAttributes {
-  scope_depth: usize,
+  /// how many try blocks of this function are active here, this one included
+  depth: usize,
 }
 
 #[derive(Debug, Clone, Copy)]
@@ -133,6 +134,9 @@ pub struct LoopAttributes {
   scope_depth: usize,
   start: Label,
   end: Label,
+
+  /// how many try blocks of this function were active where the loop starts
+  try_depth: usize,
 }
 
 #[derive(Default)]
@@ -451,11 +455,20 @@ impl<'a, 'src: 'a> Compiler<'a, 'src> {
       _ => self.emit_byte(SymbolicByteCode::Nil, line),
     }
 
-    if self.try_attributes.is_some() {
+    // leave every try block of this function that is still active
+    for _ in 0..self.try_depth() {
       self.emit_byte(SymbolicByteCode::PopHandler, line);
     }
 
     self.emit_byte(SymbolicByteCode::Return, line);
+  }
+
+  /// How many try blocks of this function are active at this point
+  fn try_depth(&self) -> usize {
+    match self.try_attributes {
+      Some(try_attributes) => try_attributes.depth,
+      None => 0,
+    }
   }
 
   fn loop_scope(
@@ -471,6 +484,7 @@ impl<'a, 'src: 'a> Compiler<'a, 'src> {
       scope_depth: self.scope_depth,
       start,
       end,
+      try_depth: self.try_depth(),
     };
     let enclosing_loop = self.loop_attributes.replace(loop_attributes);
 
@@ -1598,7 +1612,8 @@ impl<'a, 'src: 'a> Compiler<'a, 'src> {
       Some(v) => {
         self.expr(v);
 
-        if self.try_attributes.is_some() {
+        // leave every try block of this function that is still active
+        for _ in 0..self.try_depth() {
           self.emit_byte(SymbolicByteCode::PopHandler, v.end());
         }
 
@@ -1617,12 +1632,9 @@ impl<'a, 'src: 'a> Compiler<'a, 'src> {
     let new_local_count = self.drop_local_count(loop_attributes.scope_depth);
     self.drop_locals(continue_.end(), new_local_count);
 
-    // if our try catch is inside this loop
-    // a break will jump outside of it so we need to pop the handler
-    if let Some(try_attributes) = self.try_attributes {
-      if try_attributes.scope_depth > loop_attributes.scope_depth {
-        self.emit_byte(SymbolicByteCode::PopHandler, continue_.start());
-      }
+    // every try block entered inside this loop is left by the jump: pop its handler
+    for _ in loop_attributes.try_depth..self.try_depth() {
+      self.emit_byte(SymbolicByteCode::PopHandler, continue_.start());
     }
 
     self.emit_byte(
@@ -1640,12 +1652,9 @@ impl<'a, 'src: 'a> Compiler<'a, 'src> {
     let new_local_count = self.drop_local_count(loop_attributes.scope_depth);
     self.drop_locals(break_.end(), new_local_count);
 
-    // if our try catch is inside this loop
-    // a break will jump outside of it so we need to pop the handler
-    if let Some(try_attributes) = self.try_attributes {
-      if try_attributes.scope_depth > loop_attributes.scope_depth {
-        self.emit_byte(SymbolicByteCode::PopHandler, break_.start());
-      }
+    // every try block entered inside this loop is left by the jump: pop its handler
+    for _ in loop_attributes.try_depth..self.try_depth() {
+      self.emit_byte(SymbolicByteCode::PopHandler, break_.start());
     }
 
     self.emit_byte(SymbolicByteCode::Jump(loop_attributes.end), break_.start());
@@ -1655,7 +1664,7 @@ impl<'a, 'src: 'a> Compiler<'a, 'src> {
   fn try_(&mut self, try_: &'a ast::Try<'src>) {
     // set this try block as the current
     let try_attributes = TryAttributes {
-      scope_depth: self.scope_depth,
+      depth: self.try_depth() + 1,
     };
     let enclosing_try = self.try_attributes.replace(try_attributes);
 
